@@ -91,8 +91,7 @@ fn intent_rules<'m>(rules: &'static std::thread::LocalKey<RefCell<SpeechRules>>,
         let mut rules_with_context = SpeechRulesWithContext::new(&rules, doc, nav_node_id);
         let intent =  rules_with_context.match_pattern::<Element<'m>>(mathml)
                     .chain_err(|| "Pattern match/replacement failure!")?;
-        if name(&intent) == "TEMP_NAME" {   // unneeded extra layer
-            assert_eq!(intent.children().len(), 1);
+        if name(&intent) == "TEMP_NAME" && intent.children().len() == 1 {   // unneeded extra layer (not an author's intent that happens to use the name)
             return Ok( as_element(intent.children()[0]) );
         } else {
             return Ok(intent);
